@@ -798,6 +798,9 @@ type depthCase struct {
 	Construct string `json:"construct"`
 	Depth     int    `json:"depth"`
 	Overflow  bool   `json:"expect_deep"` // a case run at default stack limits that is deep enough to matter
+	// StackMiB > 0: the child lowers Go's goroutine stack limit to this many MiB before parsing (flat
+	// operator chains only, see flatStackMiB); 0 = Go's default limit.
+	StackMiB int `json:"max_stack_mib,omitempty"`
 }
 
 type construct struct {
@@ -805,7 +808,24 @@ type construct struct {
 	prefix, unit, mid string
 	closeUnit, suffix string
 	cap               int // largest depth that is affordable (super-linear parse cost above it)
+	// flat: one expression that is a long chain of binary operators with no bracketing at all. The parser
+	// recurses once per operator (the right operand is parsed by a recursive call), so such a chain is
+	// "nested" as far as stack use is concerned although nothing in the text looks nested.
+	flat bool
 }
+
+// flatStackMiB is the stack limit under which the long rungs of the flat operator chains run. Each level of
+// a chain costs only ~200 bytes of stack, so at Go's default limit of 1 GiB an unbounded recursion needs
+// more than 5 million terms, several GiB of heap and a minute of stack copying before it dies; with the
+// limit lowered, a few hundred thousand terms do. The limit is still far above what a parser that bounds
+// its recursion needs: grammar_parse.go documents "at most a couple of kilobytes of stack" per level for
+// maxDepth = 10000 levels, i.e. about 20 MiB (measured on these chains: below 4 MiB).
+const flatStackMiB = 128
+
+// flatDeep is the length of the long rung of every flat chain: 3 million terms x ~200 bytes of stack per
+// term is well over flatStackMiB. (Rungs between the cap and this one are left out on purpose: a parser
+// that does not bound the chain but survives it spends quadratic time hoisting the operators.)
+const flatDeep = 3000000
 
 var constructs = []construct{
 	{name: "paren", prefix: "x = ", unit: "(", mid: "1", closeUnit: ")", suffix: "\n"},
@@ -821,7 +841,7 @@ var constructs = []construct{
 	{name: "dotted", prefix: "x = a", unit: ".a", suffix: "\n"},
 	{name: "call-chain", prefix: "x = a", unit: "()", suffix: "\n"},
 	{name: "adjacent-strings", prefix: "x = ", unit: "'a' ", suffix: "\n", cap: 20000},
-	{name: "binop-chain", prefix: "x = a", unit: " + a", suffix: "\n", cap: 20000},
+	{name: "binop-chain", prefix: "x = a", unit: " + a", suffix: "\n", cap: 20000, flat: true},
 	{name: "comprehension", prefix: "x = ", unit: "[y for y in ", mid: "z", closeUnit: "]", suffix: "\n"},
 	{name: "slices", prefix: "x = a", unit: "[0]", suffix: "\n"},
 	{name: "not-chain", prefix: "x = ", unit: "not ", mid: "a", suffix: "\n"},
@@ -830,6 +850,17 @@ var constructs = []construct{
 	{name: "long-ident", prefix: "", unit: "a", suffix: " = 1\n"},
 	{name: "long-string", prefix: "x = '", unit: "a", suffix: "'\n"},
 	{name: "unindent-run", prefix: "", unit: "", suffix: ""}, // special: nested if blocks
+	// flat operator chains (one recursion per operator although the text has no nesting)
+	{name: "chain-and", prefix: "x = a", unit: " and a", suffix: "\n", cap: 20000, flat: true},
+	{name: "chain-or", prefix: "x = a", unit: " or a", suffix: "\n", cap: 20000, flat: true},
+	{name: "chain-eq", prefix: "x = 1", unit: " == 1", suffix: "\n", cap: 20000, flat: true},
+	{name: "chain-mixed", prefix: "x = a", unit: " or a and not a == -1 % a", suffix: "\n", cap: 5000, flat: true},
+	{name: "chain-not-in", prefix: "x = a", unit: " not in a", suffix: "\n", cap: 20000, flat: true},
+	{name: "chain-is-not", prefix: "x = a", unit: " is not a", suffix: "\n", cap: 20000, flat: true},
+	{name: "chain-list-concat", prefix: "srcs = []", unit: " + [\"a\"]", suffix: "\n", cap: 20000, flat: true},
+	{name: "chain-str-percent", prefix: "x = 'a'", unit: " % 'a' + 'b'", suffix: "\n", cap: 10000, flat: true},
+	{name: "chain-in-call-arg", prefix: "x = f(y = a", unit: " + a", suffix: ")\n", cap: 20000, flat: true},
+	{name: "chain-in-if-cond", prefix: "if a", unit: " and a", suffix: ":\n    pass\n", cap: 20000, flat: true},
 }
 
 // recursive reports whether the parser handles the construct by recursion (stack depth grows with nesting).
@@ -887,7 +918,17 @@ func depthTable(tier string) []depthCase {
 	for _, n := range deep {
 		out = append(out, depthCase{Construct: n, Depth: 1000000, Overflow: true})
 	}
+	// flat operator chains: the long rung, under a lowered stack limit (quick and thorough), ...
+	for _, c := range constructs {
+		if c.flat {
+			out = append(out, depthCase{Construct: c.name, Depth: flatDeep, Overflow: true, StackMiB: flatStackMiB})
+		}
+	}
 	if tier == "thorough" {
+		// ... and at Go's default limit with ten million terms (> 2 GiB of stack if nothing bounds the chain)
+		for _, n := range []string{"binop-chain", "chain-or", "chain-mixed"} {
+			out = append(out, depthCase{Construct: n, Depth: 10000000, Overflow: true})
+		}
 		out = append(out, depthCase{Construct: "dotted", Depth: 10000000, Overflow: true})
 		for _, n := range []string{"call-chain", "slices", "not-chain", "long-ident", "long-string", "lines", "elif-chain"} {
 			out = append(out, depthCase{Construct: n, Depth: 1000000})
@@ -896,11 +937,15 @@ func depthTable(tier string) []depthCase {
 	ladder := []int{100, 1000, 10000, 100000}
 	for _, c := range constructs {
 		for _, d := range ladder {
+			rung := d
 			if c.cap > 0 && d > c.cap {
 				d = c.cap
 			}
 			if c.name == "unindent-run" && d > 2000 {
 				d = 2000 // quadratic file size
+			}
+			if tier != "thorough" && c.flat && c.name != "binop-chain" && rung != 1000 && rung != 100000 {
+				continue // quick: the added chains get rungs 1000 and cap only (plus the long rung above)
 			}
 			if tier != "thorough" && d > 10000 && !c.recursive() {
 				d = 10000 // iterative constructs: the deep rungs are left to the thorough tier
